@@ -250,7 +250,7 @@ class Parser:
             elif type(tok) is defs.SpecialToken:
                 out.append(defs.ActionToken(tok.pos))
                 txt = self.parms.special_tokens[tok.txt]
-                out.append(defs.TextToken(tok.pos, txt))
+                out.append(defs.TextToken(tok.pos, txt, pos_fix=tok.pos_fix))
             elif type(tok) is defs.LanguageToken:
                 if self.parms.multi_language:
                     self.parms.change_parser_lang(tok)
